@@ -455,6 +455,19 @@ class Interval(NominalValueMixin):
         if "out" in kwargs and kwargs["out"] is not None:
             return NotImplemented
 
+        # numpy scalar or ndarray on the left of + - * / : use the reflected operator
+        binary_ops = {
+            np.add: (Interval.__add__, Interval.__radd__),
+            np.subtract: (Interval.__sub__, Interval.__rsub__),
+            np.multiply: (Interval.__mul__, Interval.__rmul__),
+            np.true_divide: (Interval.__truediv__, Interval.__rtruediv__),
+        }
+        if ufunc in binary_ops and len(inputs) == 2 and not kwargs:
+            forward, reflected = binary_ops[ufunc]
+            if inputs[0] is self:
+                return forward(self, inputs[1])
+            return reflected(self, inputs[0])
+
         if ufunc is np.sin:
             return self.sin()
         if ufunc is np.cos:
